@@ -21,9 +21,31 @@ import (
 
 var fset = token.NewFileSet()
 var problems []string
+var curFragment string
 
+// problem records that the current fragment could not be translated (or a fact could not be
+// collected). The fragment's definition is then omitted from the generated file, so exactly the
+// Lean modules that depend on it stop building.
 func problem(format string, args ...any) {
-	problems = append(problems, fmt.Sprintf(format, args...))
+	problems = append(problems, curFragment+": "+fmt.Sprintf(format, args...))
+}
+
+// fragment runs one generator; its output is kept only when it reported no problem.
+func fragment(out *strings.Builder, name string, gen func(out *strings.Builder)) {
+	before := len(problems)
+	curFragment = name
+	var b strings.Builder
+	gen(&b)
+	curFragment = ""
+	if len(problems) > before {
+		fmt.Fprintf(out, "-- fragment `%s` is NOT TRANSLATABLE from the current source (definition omitted):\n", name)
+		for _, p := range problems[before:] {
+			fmt.Fprintf(out, "--   %s\n", strings.ReplaceAll(p, "\n", " "))
+		}
+		out.WriteString("\n")
+		return
+	}
+	out.WriteString(b.String())
 }
 
 type pkgFiles struct {
@@ -94,6 +116,7 @@ func recvName(e ast.Expr) string {
 func main() {
 	repo := flag.String("repo", "/repo", "repository root")
 	out := flag.String("out", "", "output directory for generated Lean files")
+	templates := flag.Bool("templates", true, "re-run ecs/internal/generate and compare (FactsTemplates.lean)")
 	flag.Parse()
 	if *out == "" {
 		fmt.Fprintln(os.Stderr, "need -out")
@@ -101,19 +124,24 @@ func main() {
 	}
 	ecs := load(filepath.Join(*repo, "ecs"), func(n string) bool { return false })
 
-	logic := genLogic(ecs)
-	facts := genFacts(ecs, *repo)
+	files := map[string]string{}
+	genLogic(ecs, files)
+	genFacts(ecs, *repo, files, *templates)
+	files["Words"] = genWords(ecs)
 
-	if len(problems) > 0 {
-		sort.Strings(problems)
-		for _, p := range problems {
-			fmt.Fprintln(os.Stderr, "extract: "+p)
-		}
-		os.Exit(1)
+	for name, content := range files {
+		must(os.WriteFile(filepath.Join(*out, name+".lean"), []byte(content), 0o644))
 	}
-	must(os.WriteFile(filepath.Join(*out, "Logic.lean"), []byte(logic), 0o644))
-	must(os.WriteFile(filepath.Join(*out, "Facts.lean"), []byte(facts), 0o644))
-	fmt.Println("extract: ok")
+	sort.Strings(problems)
+	must(os.WriteFile(filepath.Join(*out, "problems.txt"), []byte(strings.Join(problems, "\n")), 0o644))
+	for _, p := range problems {
+		fmt.Fprintln(os.Stderr, "extract: "+p)
+	}
+	if len(problems) > 0 {
+		fmt.Printf("extract: %d fragment problem(s); the affected definitions are omitted\n", len(problems))
+	} else {
+		fmt.Println("extract: ok")
+	}
 }
 
 func must(err error) {
